@@ -381,7 +381,11 @@ func checkOptions(r *sim.R, fv *flag.FlagValue, o optSet) {
 
 func genKVArg(r *sim.R, ctr *int) string {
 	t := r.T
-	switch t.Weighted([]int{10, 2, 2, 3, 1, 2}, "arg-kind") {
+	switch t.Weighted([]int{10, 2, 2, 3, 1, 2, 1}, "arg-kind") {
+	case 6:
+		// the empty argument (-D ""): a bare key like any other, its name is the empty string
+		r.Probe("flags: the empty argument")
+		return ""
 	case 5:
 		// a value parse.Value accepts, but which cannot become a setting under every set of
 		// options: a malformed reference (VarExp), one setting spelled twice (PathSep)
